@@ -95,8 +95,10 @@ func ecKeysFor(curve elliptic.Curve) (out []int) {
 
 // ---------------------------------------------------------------- serialisation surgery (independent of the library)
 
-func b64d(s string) ([]byte, error) { return base64.RawURLEncoding.DecodeString(strings.TrimRight(s, "=")) }
-func b64e(b []byte) string          { return base64.RawURLEncoding.EncodeToString(b) }
+func b64d(s string) ([]byte, error) {
+	return base64.RawURLEncoding.DecodeString(strings.TrimRight(s, "="))
+}
+func b64e(b []byte) string { return base64.RawURLEncoding.EncodeToString(b) }
 
 var compactJWS = []string{"protected", "payload", "signature"}
 var compactJWE = []string{"protected", "encrypted_key", "iv", "ciphertext", "tag"}
@@ -172,12 +174,12 @@ func flip(field string, bit int) (string, error) {
 
 type SCase struct {
 	Alg     string `json:"alg"`
-	Key     int    `json:"key"`     // index into the fixture pool of the key kind; HMAC: key length
-	HKey    uint64 `json:"hkey"`    // HMAC key fill
-	Size    int    `json:"size"`    // payload bytes
+	Key     int    `json:"key"`  // index into the fixture pool of the key kind; HMAC: key length
+	HKey    uint64 `json:"hkey"` // HMAC key fill
+	Size    int    `json:"size"` // payload bytes
 	Fill    uint64 `json:"fill"`
-	JSON    bool   `json:"json"`    // full JSON serialisation instead of compact
-	Flips   []int  `json:"flips"`   // bit positions to flip in every field (empty = first and last bit)
+	JSON    bool   `json:"json"`     // full JSON serialisation instead of compact
+	Flips   []int  `json:"flips"`    // bit positions to flip in every field (empty = first and last bit)
 	AllBits bool   `json:"all_bits"` // flip every bit of every field
 }
 
@@ -206,9 +208,13 @@ func sigKeys(c SCase) (sign interface{}, verify interface{}, wrong interface{}, 
 }
 
 type cnt struct {
-	evals, tampers int
+	evals, tampers                               int
 	blockEdge, sigLeadZero, keyLeadZero, lastBit bool
 }
+
+type fixedNonce string
+
+func (f fixedNonce) Nonce() (string, error) { return string(f), nil }
 
 func runSign(c SCase) (n cnt, err error) {
 	sk, vk, wk, err := sigKeys(c)
@@ -228,6 +234,13 @@ func runSign(c SCase) (n cnt, err error) {
 			return n, fmt.Errorf("first object of a reused signer: %d bytes, err %v", len(out), e3)
 		}
 		n.evals++
+		// ... and may be reconfigured between two signatures
+		if c.Fill%2 == 0 {
+			signer.SetEmbedJwk(false)
+		}
+		if c.Fill%4 < 2 {
+			signer.SetNonceSource(fixedNonce("nonce-for-the-second-object"))
+		}
 	}
 	obj, err := signer.Sign(payload)
 	if err != nil {
@@ -279,7 +292,10 @@ func runSign(c SCase) (n cnt, err error) {
 		}
 		bits := bitsFor(c.Flips, c.AllBits, len(raw)*8)
 		if name == "protected" {
-			bits = protectedBits(raw, c.Flips, c.AllBits, true)
+			bits = protectedBits(raw, c.Flips, c.AllBits, c.Size < 60000)
+			if c.Size >= 60000 {
+				bits = bitsFor(c.Flips, false, len(raw)*8)
+			}
 		}
 		for _, bit := range bits {
 			tf, err := flip(f, bit)
@@ -362,6 +378,19 @@ type ECase struct {
 	AAD     int    `json:"aad"` // -1 absent, else length (JSON serialisation only)
 	Flips   []int  `json:"flips"`
 	AllBits bool   `json:"all_bits"`
+	Text    bool   `json:"text,omitempty"` // payload is repetitive text (compresses well) instead of pseudo-random bytes
+}
+
+func (c ECase) payload() []byte {
+	if !c.Text {
+		return rtmpx.Fill(c.Size, c.Fill)
+	}
+	line := []byte(fmt.Sprintf("%d: the quick brown fox jumps over the lazy dog; ", c.Fill%97))
+	b := make([]byte, 0, c.Size+len(line))
+	for len(b) < c.Size {
+		b = append(b, line...)
+	}
+	return b[:c.Size]
 }
 
 var encKeySize = map[string]int{"A128GCM": 16, "A192GCM": 24, "A256GCM": 32, "A128CBC-HS256": 32, "A192CBC-HS384": 48, "A256CBC-HS512": 64}
@@ -404,7 +433,7 @@ func runEncrypt(c ECase) (n cnt, err error) {
 	if err != nil {
 		return n, err
 	}
-	payload := rtmpx.Fill(c.Size, c.Fill)
+	payload := c.payload()
 	e, err := jose.NewEncrypter(jose.KeyAlgorithm(c.Alg), jose.ContentEncryption(c.Enc), ek)
 	if err != nil {
 		return n, fmt.Errorf("NewEncrypter(%s,%s): %v", c.Alg, c.Enc, err)
@@ -517,7 +546,10 @@ func runEncrypt(c ECase) (n cnt, err error) {
 		bits := bitsFor(c.Flips, c.AllBits, len(raw)*8)
 		if name == "protected" {
 			// public-key unwrapping costs milliseconds per attempt: every bit only for the symmetric key algorithms
-			bits = protectedBits(raw, c.Flips, c.AllBits, !strings.HasPrefix(c.Alg, "RSA") && !strings.HasPrefix(c.Alg, "ECDH"))
+			bits = protectedBits(raw, c.Flips, c.AllBits, c.Size < 60000 && !strings.HasPrefix(c.Alg, "RSA") && !strings.HasPrefix(c.Alg, "ECDH"))
+			if c.Size >= 60000 {
+				bits = bitsFor(c.Flips, false, len(raw)*8) // large payloads: each attempt costs milliseconds
+			}
 		}
 		for _, bit := range bits {
 			tf, err := flip(f, bit)
@@ -645,6 +677,68 @@ func TestEncryptMatrix(t *testing.T) {
 						}
 					}
 				}
+			}
+		}
+	}
+}
+
+// TestLargePayloads: payloads far beyond the sizes of the matrices (an object may carry a
+// certificate chain or a document), compressible and not.
+func TestLargePayloads(t *testing.T) {
+	rec := ev.New(prop, "large-payloads", "JWE {dir, A128KW, A256GCMKW, RSA-OAEP} x 6 content encryptions x {no compression, DEF} x {repetitive text, pseudo-random bytes} and JWS {HS256, RS256, ES384} x payload sizes "+
+		"{70000, 300000, 2^20+1; thorough: also 5*2^20}; per object: round trip == payload, wrong key fails, first/last bit of each field flipped fails; all non-trivial")
+	rec.Exhaustive()
+	big := []int{70000, 300000, 1<<20 + 1}
+	if ev.Thorough() {
+		big = append(big, 5<<20)
+	}
+	i := 0
+	for _, alg := range []string{"dir", "A128KW", "A256GCMKW", "RSA-OAEP"} {
+		for _, enc := range encAlgs {
+			for _, zip := range []bool{false, true} {
+				for _, text := range []bool{true, false} {
+					i++
+					if i%ev.Shards() != ev.Shard() {
+						continue
+					}
+					if !ev.Thorough() && alg != "dir" && !(zip && text) {
+						continue // quick tier: every combination with direct keys, the compressed-text case with the others
+					}
+					c := ECase{Alg: alg, Enc: enc, Zip: zip, Text: text, Key: i, KFill: uint64(i), Size: big[i%len(big)], Fill: uint64(2*i + 1), JSON: i%2 == 0, AAD: -1}
+					var n cnt
+					err := ev.Try(func() error {
+						var e error
+						n, e = runEncrypt(c)
+						return e
+					})
+					cl := []string{"jwe"}
+					if zip && text {
+						cl = append(cl, "compressed-text")
+					}
+					record(rec, c, n, cl)
+					if err != nil {
+						fail(t, "jwe", c, err)
+					}
+				}
+			}
+		}
+	}
+	for j, alg := range []string{"HS256", "RS256", "ES384"} {
+		for k, sz := range big {
+			i++
+			if i%ev.Shards() != ev.Shard() {
+				continue
+			}
+			c := SCase{Alg: alg, Key: 32 + j, HKey: 7, Size: sz, Fill: uint64(6*k + 1), JSON: k%2 == 1}
+			var n cnt
+			err := ev.Try(func() error {
+				var e error
+				n, e = runSign(c)
+				return e
+			})
+			record(rec, c, n, []string{"jws"})
+			if err != nil {
+				fail(t, "jws", c, err)
 			}
 		}
 	}
@@ -823,12 +917,12 @@ func refThumbprint(pub interface{}) ([]byte, error) {
 }
 
 type JCase struct {
-	Kind  string `json:"kind"` // rsa-pub rsa-priv ec-pub ec-priv oct
-	Key   int    `json:"key"`
-	Len   int    `json:"len,omitempty"`
-	Kid   string `json:"kid,omitempty"`
-	Alg   string `json:"alg,omitempty"`
-	Use   string `json:"use,omitempty"`
+	Kind string `json:"kind"` // rsa-pub rsa-priv ec-pub ec-priv oct
+	Key  int    `json:"key"`
+	Len  int    `json:"len,omitempty"`
+	Kid  string `json:"kid,omitempty"`
+	Alg  string `json:"alg,omitempty"`
+	Use  string `json:"use,omitempty"`
 }
 
 func runJWK(c JCase) (leadZero bool, err error) {
